@@ -34,12 +34,21 @@ int __wrap_gettimeofday (struct timeval *tv, void *tz) { (void) tz; if (tv) { tv
 /* ---------------------------------------------------------------- timer */
 static verif_timer_cb_t timer_cb = 0;
 verif_timer_cb_t verif_timer_callback (void) { return timer_cb; }
+timer_error_t __real_platform_timer_start (platform_timer_t *timer, unsigned long interval_us, timer_callback_t callback);
+timer_error_t __real_platform_timer_stop (platform_timer_t *timer);
+static int real_timer (void) { const char *e = getenv ("VERIF_REAL_TIMER"); return e && *e == '1'; }
 timer_error_t __wrap_platform_timer_start (platform_timer_t *timer, unsigned long interval_us, timer_callback_t callback) {
+  if (real_timer ())      /* C19 driver session: the real timer thread, at a short interval so that a few seconds hold many ticks */
+    return __real_platform_timer_start (timer, 20000, callback);
   (void) timer; (void) interval_us;
   timer_cb = callback; /* no thread: ticks are scripted */
   return TIMER_OK;
 }
-timer_error_t __wrap_platform_timer_stop (platform_timer_t *timer) { (void) timer; timer_cb = 0; return TIMER_OK; }
+timer_error_t __wrap_platform_timer_stop (platform_timer_t *timer) {
+  if (real_timer ())
+    return __real_platform_timer_stop (timer);
+  (void) timer; timer_cb = 0; return TIMER_OK;
+}
 
 /* ---------------------------------------------------------------- backend stepping */
 void (*verif_wait_hook) (void) = 0;
